@@ -42,6 +42,11 @@ impl Time {
                 "Time is too far in the future to fit into 32 bits".to_string(),
             ))?;
         }
+        if diameter_timestamp < 0 {
+            Err(Error::EncodeError(
+                "Time is before 1900 and cannot be represented".to_string(),
+            ))?;
+        }
         let diameter_timestamp = diameter_timestamp as u32;
         writer.write_all(&diameter_timestamp.to_be_bytes())?;
         Ok(())
